@@ -31,7 +31,8 @@ LEVEL_TEXT = ('Decides the second sentence of C06 structurally: symbols can only
               "stack constraint is the stack machine's transition relation on 3-4 slots in both representations of an "
               'unused slot (C06.h); the mandatory hard-constraint families are generated under every setting of the flags '
               'the encoding reads (C06.i). Soundness of the whole constraint system over all models and all sizes is not '
-              'decided.')
+              'decided.'
+              ' Added in seeding rounds 8-9: registries read by the constraint generators are filled somewhere (C06.j), and the distinctness of the stack terms is generated wherever they are represented by uninterpreted symbols (C06.i, sibling agreement).')
 EXPLANATION = ("Declarations are a snapshot taken by BlockOptimizer before the lazy constraint generators run, so a creator "
                "that is used but not pre-created in functions_declared yields an undeclared symbol in the SMT-LIB text.")
 NOT_DECIDED = ("that every model decodes to a realizing sequence for instances larger than those of C06.g/h, and the interplay of all "
